@@ -672,6 +672,71 @@ def check(ctx):
                    'budget)', construct='data watch fires on change')
 
 
+    _monitor_record(ctx)
+
+
+def _monitor_record(ctx):
+    """What the monitor acts on is what was configured and asked for.
+    C20.4: updating a monitor changes the stored count / policy only when a
+    new one is given - an update of the count alone leaves the scale-down
+    policy as configured.  C20.2: a request for N instances creates N
+    sequence nodes, each by one direct create - a sequence create that is
+    retried after a lost reply leaves a second instance behind."""
+    mod = ctx.index.module('treadmill.scheduler.masterapi')
+    upd = mod.functions.get('update_appmonitor') if mod else None
+    ctx.require(upd is not None, 'masterapi.update_appmonitor',
+                rule='C20.4')
+    graph = ctx.cfg(upd)
+    nz = N.Normaliser()
+    facts = N.must_facts(graph, nz)
+    params = upd.params()
+    seen = set()
+    for node in graph.nodes:
+        if not (node.kind == 'stmt' and isinstance(node.ast, ast.Assign) and
+                len(node.ast.targets) == 1 and
+                isinstance(node.ast.targets[0], ast.Subscript) and
+                isinstance(node.ast.targets[0].slice, ast.Constant)):
+            continue
+        key = node.ast.targets[0].slice.value
+        if key not in ('count', 'policy'):
+            continue
+        seen.add(key)
+        val = node.ast.value
+        given = isinstance(val, ast.Name) and val.id in params and any(
+            f.key == ('is', val.id, 'None', False) for f in facts[node])
+        ctx.ob('C20.4', upd, node, given,
+               'the stored %s of a monitor is replaced only by a value that '
+               'was given (%s)' % (key, N.txt(node.ast)),
+               construct='monitor %s kept unless given' % key)
+    ctx.require(seen == {'count', 'policy'}, 'stores of count and policy in '
+                'update_appmonitor (found %s)' % sorted(seen), rule='C20.4',
+                func=upd)
+    crt = mod.functions.get('create_apps')
+    ctx.require(crt is not None, 'masterapi.create_apps', rule='C20.2')
+    seq = [c for c in K.calls(crt.node) if any(
+        k.arg == 'sequence' and isinstance(k.value, ast.Constant) and
+        k.value.value is True for k in c.keywords)]
+    ctx.require(seq, 'the sequence create of create_apps', rule='C20.2',
+                func=crt)
+    for call in seq:
+        direct = K.callee_text(call).split('.')[-1] in ('put', 'create')
+        ctx.ob('C20.2', crt, call, direct,
+               'an instance node is created by one direct sequence create '
+               '(%s)' % K.callee_text(call) if direct else
+               'the sequence create goes through %s: a create whose reply '
+               'was lost is repeated and leaves a second instance' %
+               K.callee_text(call),
+               construct='sequence create not retried')
+    cgraph = ctx.cfg(crt)
+    for node, call in K.nodes_calling(cgraph, lambda c: c in seq):
+        loop = K.enclosing_for(cgraph, node)
+        dom = N.txt(loop.ast.iter) if loop is not None else ''
+        ctx.ob('C20.2', crt, node, dom in (
+            'range(0, %s)' % crt.params()[3], 'range(%s)' % crt.params()[3]),
+               'one create per requested instance (%s)' % dom,
+               construct='creates per request')
+
+
 _AM = 'lib/python/treadmill/sproc/appmonitor.py'
 _IN = 'lib/python/treadmill/api/instance.py'
 
